@@ -308,3 +308,429 @@ Proof.
     destruct (hi_complete tmin hi v Whi Wv Hihi Ph H2) as [c' [Ec' Hc']]. rewrite Ec'.
     destruct (Z.ltb_spec c' 0); [lia|reflexivity].
 Qed.
+
+(** * 5. One range / length statement, and all levels *)
+
+Definition wf_range (r : list rentry) : Prop := r <> [] /\ Forall wf_entry r.
+
+Lemma any_entry_pass r v :
+  any_entry entry_check r v = Pass <-> exists e, In e r /\ entry_check e v = Pass.
+Proof.
+  induction r as [|a tl IH]; cbn.
+  - split; [discriminate|]. intros [e [[] _]].
+  - pose proof (entry_no_panic a v) as NP. destruct (entry_check a v) eqn:E.
+    + split; [intros _; exists a; auto|reflexivity].
+    + rewrite IH. split; intros [e [Hin He]].
+      * exists e; auto.
+      * destruct Hin as [->|Hin]; [congruence|exists e; auto].
+    + congruence.
+Qed.
+
+Lemma range_sound tmin tmax r v :
+  wf_range r -> wf_num v -> (is_dec v = true \/ forallb integral_entry r = true) ->
+  range_check r v = Pass -> in_restr tmin tmax (qv v) (Some (map den_entry r)).
+Proof.
+  intros [Hne Hwf] Wv Hi H. destruct r as [|e0 tl]; [congruence|].
+  unfold range_check in H. apply any_entry_pass in H. destruct H as [e [Hin He]].
+  cbn [in_restr]. exists (den_entry e). split; [apply in_map; exact Hin|].
+  apply entry_sound; auto.
+  - rewrite Forall_forall in Hwf. auto.
+  - destruct Hi as [Hi|Hi]; [auto|right]. rewrite forallb_forall in Hi. auto.
+Qed.
+
+Lemma range_complete tmin tmax r v :
+  wf_range r -> wf_num v -> (is_dec v = true \/ forallb integral_entry r = true) ->
+  forallb placed r = true ->
+  in_restr tmin tmax (qv v) (Some (map den_entry r)) -> range_check r v = Pass.
+Proof.
+  intros [Hne Hwf] Wv Hi Hp H. destruct r as [|e0 tl]; [congruence|].
+  unfold range_check. apply any_entry_pass. cbn [in_restr] in H. destruct H as [a [Hin Ha]].
+  apply in_map_iff in Hin. destruct Hin as [e [<- Hin]]. exists e. split; [exact Hin|].
+  apply (entry_complete tmin tmax); auto.
+  - rewrite Forall_forall in Hwf. auto.
+  - destruct Hi as [Hi|Hi]; [auto|right]. rewrite forallb_forall in Hi. auto.
+  - rewrite forallb_forall in Hp. auto.
+Qed.
+
+Lemma all_levels_iff rs v :
+  all_levels rs v = Pass <-> Forall (fun r => range_check r v = Pass) rs.
+Proof.
+  induction rs as [|r tl IH]; cbn.
+  - split; auto.
+  - rewrite Forall_cons_iff, <- IH. destruct (range_check r v); split; try tauto; try discriminate.
+    all: intros [? ?]; discriminate.
+Qed.
+
+(** the Range objects a selector (range or length) contributes along the chain, leaf first *)
+Definition restrs_of (sel : plevel -> option (list rentry)) (pc : list plevel) : list (list rentry) :=
+  flat_map (fun l => match sel l with Some r => [r] | None => [] end) pc.
+
+Lemma compile_ranges pc : c_ranges (compile pc) = restrs_of pl_range pc.
+Proof.
+  induction pc as [|l tl IH]; [reflexivity|]. cbn. rewrite IH. reflexivity.
+Qed.
+Lemma compile_lengths pc : c_lengths (compile pc) = restrs_of pl_length pc.
+Proof.
+  induction pc as [|l tl IH]; [reflexivity|]. cbn. rewrite IH. reflexivity.
+Qed.
+Lemma compile_pats pc :
+  c_pats (compile pc) = match pc with
+                        | [] => []
+                        | l :: tl => match pl_pats l with [] => c_pats (compile tl) | ps => ps end
+                        end.
+Proof. destruct pc as [|l tl]; [reflexivity|]. cbn. destruct (pl_pats l); reflexivity. Qed.
+
+Definition sel_wf (sel : plevel -> option (list rentry)) (pc : list plevel) : Prop :=
+  Forall (fun l => forall r, sel l = Some r -> wf_range r) pc.
+Definition sel_all (f : rentry -> bool) (sel : plevel -> option (list rentry)) (pc : list plevel) : bool :=
+  forallb (fun l => match sel l with Some r => forallb f r | None => true end) pc.
+
+Lemma levels_sound tmin tmax sel pc v :
+  sel_wf sel pc -> wf_num v -> (is_dec v = true \/ sel_all integral_entry sel pc = true) ->
+  all_levels (restrs_of sel pc) v = Pass ->
+  Forall (fun l => in_restr tmin tmax (qv v) (option_map (map den_entry) (sel l))) pc.
+Proof.
+  intros Hwf Wv Hi H. apply all_levels_iff in H.
+  induction pc as [|l tl IH]; [constructor|].
+  inversion Hwf as [|? ? Hl Htl]; subst.
+  assert (Hi' : (is_dec v = true \/ match sel l with Some r => forallb integral_entry r | None => true end = true)
+                /\ (is_dec v = true \/ sel_all integral_entry sel tl = true)).
+  { destruct Hi as [Hi|Hi]; [tauto|]. cbn in Hi. apply andb_true_iff in Hi. tauto. }
+  destruct Hi' as [Hi1 Hi2].
+  unfold restrs_of in H. cbn [flat_map] in H. apply Forall_app in H. destruct H as [H1 H2].
+  constructor; [|apply IH; assumption].
+  destruct (sel l) as [r|] eqn:E; [|exact I].
+  cbn [option_map]. inversion H1; subst. apply range_sound; auto.
+Qed.
+
+Lemma levels_complete tmin tmax sel pc v :
+  sel_wf sel pc -> wf_num v -> (is_dec v = true \/ sel_all integral_entry sel pc = true) ->
+  sel_all placed sel pc = true ->
+  Forall (fun l => in_restr tmin tmax (qv v) (option_map (map den_entry) (sel l))) pc ->
+  all_levels (restrs_of sel pc) v = Pass.
+Proof.
+  intros Hwf Wv Hi Hp H. apply all_levels_iff.
+  induction pc as [|l tl IH]; [constructor|].
+  inversion Hwf as [|? ? Hl Htl]; subst. inversion H as [|? ? Hl2 Htl2]; subst.
+  assert (Hi' : (is_dec v = true \/ match sel l with Some r => forallb integral_entry r | None => true end = true)
+                /\ (is_dec v = true \/ sel_all integral_entry sel tl = true)).
+  { destruct Hi as [Hi|Hi]; [tauto|]. cbn in Hi. apply andb_true_iff in Hi. tauto. }
+  destruct Hi' as [Hi1 Hi2]. cbn in Hp. apply andb_true_iff in Hp. destruct Hp as [Hp1 Hp2].
+  unfold restrs_of. cbn [flat_map]. apply Forall_app. split; [|apply IH; assumption].
+  destruct (sel l) as [r|] eqn:E; [|constructor].
+  constructor; [|constructor]. cbn [option_map] in Hl2. apply (range_complete tmin tmax); auto.
+Qed.
+
+(** * 6. Text equality, membership *)
+Lemma text_eqb_eq a b : text_eqb a b = true <-> a = b.
+Proof.
+  revert b. induction a as [|x a IH]; destruct b as [|y b]; cbn; split; try discriminate; auto.
+  - intros H. apply andb_true_iff in H. destruct H as [H1 H2].
+    apply byte_dec_bl in H1. apply IH in H2. congruence.
+  - intros H. inversion H; subst. apply andb_true_iff. split; [apply byte_dec_lb; reflexivity|apply IH; reflexivity].
+Qed.
+
+Lemma mem_text_in s l : mem_text s l = true <-> In s l.
+Proof.
+  induction l as [|x tl IH]; cbn; [split; [discriminate|tauto]|].
+  rewrite orb_true_iff, text_eqb_eq, IH. split; intros [H|H]; auto.
+Qed.
+
+(** * 7. Characters: counting non-continuation bytes is counting decoded characters *)
+Lemma all_cont_skip n s : all_cont n s = true -> rune_count s = rune_count (skipn n s).
+Proof.
+  revert s. induction n as [|n IH]; intros s H; [reflexivity|].
+  destruct s as [|c tl]; [discriminate|]. cbn in H. apply andb_true_iff in H. destruct H as [Hc Ht].
+  cbn [skipn rune_count]. rewrite Hc. rewrite (IH tl Ht). lia.
+Qed.
+
+Lemma skipn_length_le {A} n (l : list A) : (length (skipn n l) <= length l)%nat.
+Proof. rewrite skipn_length. lia. Qed.
+
+Lemma chars_fuel_runes fuel s :
+  (length s <= fuel)%nat -> utf8_fuel fuel s = true -> chars_fuel fuel s = rune_count s.
+Proof.
+  revert s. induction fuel as [|f IH]; intros s Hl H.
+  - destruct s; [reflexivity|cbn in Hl; lia].
+  - destruct s as [|c tl]; [reflexivity|]. cbn [utf8_fuel] in H.
+    apply andb_true_iff in H. destruct H as [H H3]. apply andb_true_iff in H. destruct H as [H1 H2].
+    cbn [chars_fuel rune_count]. apply negb_true_iff in H1. rewrite H1.
+    rewrite IH; [rewrite <- (all_cont_skip _ _ H2); reflexivity| |exact H3].
+    cbn in Hl. pose proof (skipn_length_le (lead_len c) tl). lia.
+Qed.
+
+Lemma char_count_runes s : utf8_ok s = true -> char_count s = rune_count s.
+Proof. intros H. unfold char_count. apply chars_fuel_runes; [lia|exact H]. Qed.
+
+(** * 8. What newRange guarantees about its output *)
+
+Lemma traverse_Forall {A B} (f : A -> option B) (P : B -> Prop) :
+  (forall a b, f a = Some b -> P b) -> forall l r, traverse f l = Some r -> Forall P r.
+Proof.
+  intros Hf. induction l as [|a tl IH]; intros r H; cbn in H.
+  - inversion H. constructor.
+  - destruct (f a) eqn:E; [|discriminate]. destruct (traverse f tl) eqn:E2; [|discriminate].
+    inversion H; subst. constructor; eauto.
+Qed.
+
+Lemma traverse_nonempty {A B} (f : A -> option B) l r :
+  l <> [] -> traverse f l = Some r -> r <> [].
+Proof.
+  destruct l as [|a tl]; [congruence|]. intros _ H. cbn in H.
+  destruct (f a); [|discriminate]. destruct (traverse f tl); [|discriminate].
+  inversion H. discriminate.
+Qed.
+
+Lemma split_bar_nonempty s acc : split_bar s acc <> [].
+Proof.
+  revert acc. induction s as [|c tl IH]; intros acc; cbn; [discriminate|].
+  destruct (Byte.eqb c b_bar); [discriminate|apply IH].
+Qed.
+
+Lemma parse_rnum_wf s n : parse_rnum s = Some n -> wf_rnum n.
+Proof.
+  unfold parse_rnum. generalize (trim s) as t. intros t.
+  destruct (text_eqb t kw_max); [intros H; inversion H; exact I|].
+  destruct (text_eqb t kw_min); [intros H; inversion H; exact I|].
+  destruct (parse_int t) eqn:Ei; [intros H; inversion H; exact I|].
+  destruct (parse_uint t) eqn:Eu.
+  - intros H; inversion H; subst; cbn. clear H.
+    unfold parse_uint in Eu. destruct (parse_udigits t) as [z0|] eqn:Ed; [|discriminate].
+    destruct (z0 <=? max_uint64); inversion Eu; subst. clear Eu.
+    unfold parse_int in Ei. destruct t as [|c tl]; [discriminate Ed|].
+    assert (Hd : digit_of c <> None).
+    { cbn in Ed. destruct (digit_of c); congruence. }
+    destruct (Byte.eqb c b_minus) eqn:Em.
+    { apply byte_dec_bl in Em; subst. exfalso; apply Hd; reflexivity. }
+    destruct (Byte.eqb c b_plus) eqn:Ep.
+    { apply byte_dec_bl in Ep; subst. exfalso; apply Hd; reflexivity. }
+    rewrite Ed in Ei. destruct (Z.leb_spec z max_int64); [discriminate|lia].
+  - destruct (parse_float t) as [[m k]|]; intros H; inversion H; exact I.
+Qed.
+
+Lemma parse_entry_wf s e : parse_entry s = Some e -> wf_entry e.
+Proof.
+  unfold parse_entry. intros H.
+  assert (A : match parse_rnum s with Some x => Some (EExact x) | None => None end = Some e -> wf_entry e).
+  { intros H0. destruct (parse_rnum s) eqn:E; inversion H0; subst. cbn. eapply parse_rnum_wf; eauto. }
+  destruct (split_dotdot s []) as [|a [|b [|c l]]]; try (apply A; exact H).
+  destruct (parse_rnum a) eqn:Ea; [|discriminate]. destruct (parse_rnum b) eqn:Eb; [|discriminate].
+  inversion H; subst. cbn. split; eapply parse_rnum_wf; eauto.
+Qed.
+
+Lemma parse_range_wf s r : parse_range s = Some r -> wf_range r.
+Proof.
+  unfold parse_range. intros H. split.
+  - eapply traverse_nonempty; [apply split_bar_nonempty|exact H].
+  - eapply traverse_Forall; [|exact H]. intros a b. apply parse_entry_wf.
+Qed.
+
+Definition wf_chain (pc : list plevel) : Prop := sel_wf pl_range pc /\ sel_wf pl_length pc.
+
+Lemma parse_chain_wf chain pc : parse_chain chain = Some pc -> wf_chain pc.
+Proof.
+  unfold parse_chain. intros H.
+  assert (A : Forall (fun l => (forall r, pl_range l = Some r -> wf_range r) /\
+                               (forall r, pl_length l = Some r -> wf_range r)) pc).
+  { eapply traverse_Forall; [|exact H]. intros a b Hb. unfold parse_level in Hb.
+    unfold parse_opt in Hb.
+    destruct (tl_range a) as [tr|] eqn:Er.
+    - destruct (parse_range tr) eqn:Epr; [|discriminate].
+      destruct (tl_length a) as [tln|] eqn:El.
+      + destruct (parse_range tln) eqn:Epl; [|discriminate]. inversion Hb; subst; cbn.
+        split; intros r Hr; inversion Hr; subst; eapply parse_range_wf; eauto.
+      + inversion Hb; subst; cbn. split; intros r Hr; inversion Hr; subst. eapply parse_range_wf; eauto.
+    - destruct (tl_length a) as [tln|] eqn:El.
+      + destruct (parse_range tln) eqn:Epl; [|discriminate]. inversion Hb; subst; cbn.
+        split; intros r Hr; inversion Hr; subst. eapply parse_range_wf; eauto.
+      + inversion Hb; subst; cbn. split; intros r Hr; inversion Hr. }
+  apply Forall_and_inv in A. exact A.
+Qed.
+
+(** * 9. The whole check against the effective type *)
+
+(** at most one pattern along the whole chain: the region outside the two pattern findings *)
+Definition pats_simple (pc : list plevel) : Prop := (length (flat_map pl_pats pc) <= 1)%nat.
+(** every bound of an integer or length restriction denotes an integer *)
+Definition integral_chain (b : base) (pc : list plevel) : bool :=
+  match b with
+  | BNum _ => sel_all integral_entry pl_range pc
+  | BStr => sel_all integral_entry pl_length pc
+  | _ => true
+  end.
+Definition placed_chain (pc : list plevel) : bool :=
+  sel_all placed pl_range pc && sel_all placed pl_length pc.
+(** a string is well-formed UTF-8 and short enough for Go's val.Int32(length) to be exact *)
+Definition wf_sval (s : sval) : Prop :=
+  match s with SStr t => utf8_ok t = true /\ rune_count t <= 2147483647 | _ => True end.
+Definition wf_value (v : value) : Prop :=
+  match v with VOne s => wf_sval s | VMany l => Forall wf_sval l end.
+
+Lemma compile_pats_simple pc : pats_simple pc -> c_pats (compile pc) = flat_map pl_pats pc.
+Proof.
+  unfold pats_simple. induction pc as [|l tl IH]; intros H; [reflexivity|].
+  rewrite compile_pats. cbn [flat_map] in *. rewrite app_length in H.
+  destruct (pl_pats l) as [|p ps] eqn:E.
+  - cbn. apply IH. cbn in H. lia.
+  - cbn in H. assert (length ps = 0%nat /\ length (flat_map pl_pats tl) = 0%nat) as [H1 H2] by lia.
+    apply length_zero_iff_nil in H1. apply length_zero_iff_nil in H2. rewrite H1, H2. reflexivity.
+Qed.
+
+Lemma rune_count_nonneg s : 0 <= rune_count s.
+Proof. induction s as [|c tl IH]; cbn; [lia|]. destruct (is_cont c); lia. Qed.
+
+Lemma in_kind_wf k z : in_kind k z = true ->
+  kind_min k <= z <= kind_max k /\ wf_num (match k with U64 => NU64 z | _ => NInt z end).
+Proof.
+  unfold in_kind. intros H. apply andb_true_iff in H. destruct H as [H1 H2].
+  apply Z.leb_le in H1. apply Z.leb_le in H2. split; [lia|].
+  destruct k; cbn in *; unfold min_int64, max_int64, max_uint64 in *; lia.
+Qed.
+
+Lemma qv_kind k z : qv (match k with U64 => NU64 z | _ => NInt z end) = (z, O).
+Proof. destruct k; reflexivity. Qed.
+Lemma is_dec_kind k z : is_dec (match k with U64 => NU64 z | _ => NInt z end) = false.
+Proof. destruct k; reflexivity. Qed.
+
+Lemma Forall_den_level (P : option (list alt) -> Prop) sel sel' pc :
+  (forall l, sel' (den_level l) = option_map (map den_entry) (sel l)) ->
+  Forall (fun l => P (option_map (map den_entry) (sel l))) pc <->
+  Forall (fun l => P (sel' l)) (map den_level pc).
+Proof.
+  intros E. rewrite Forall_map. split; apply Forall_impl; intros l; rewrite E; auto.
+Qed.
+
+Section WithRegex2.
+Variable rx : text -> text -> bool.
+
+Lemma pat_ok_holds t p : pat_ok rx t p = true <-> pat_holds rx t p.
+Proof.
+  unfold pat_ok, pat_holds. destruct (rx (fst p) t), (snd p); cbn; split; congruence.
+Qed.
+
+Lemma scalar_sound b pc s :
+  wf_chain pc -> integral_chain b pc = true -> pats_simple pc -> wf_sval s ->
+  check_scalar rx b (compile pc) s = Pass -> in_scalar rx b (map den_level pc) s.
+Proof.
+  intros [Wr Wl] Hi Hp Ws H. destruct b, s; cbn in H; try discriminate.
+  - (* integer *)
+    destruct (in_kind k z) eqn:Ek; [|discriminate]. apply in_kind_wf in Ek. destruct Ek as [Hz Wv].
+    cbn. split; [exact Hz|]. rewrite compile_ranges in H.
+    apply (Forall_den_level (in_restr (kind_min k, O) (kind_max k, O) (z, O)) pl_range sl_range); [reflexivity|].
+    rewrite <- (qv_kind k z). apply levels_sound; auto.
+  - (* decimal64 *)
+    cbn. rewrite compile_ranges in H.
+    apply (Forall_den_level (in_restr (dec_min fd) (dec_max fd) (m, k)) pl_range sl_range); [reflexivity|].
+    change (m, k) with (qv (NDec m k)). apply levels_sound; cbn; auto.
+  - (* string *)
+    destruct (pattern_check rx (c_pats (compile pc)) s) eqn:Epat; [|discriminate].
+    destruct Ws as [Wu Wn]. cbn. rewrite Forall_map. rewrite compile_lengths in H.
+    assert (Hlen : Forall (fun l => in_restr len_min len_max (char_count s, O)
+                                      (option_map (map den_entry) (pl_length l))) pc).
+    { rewrite (char_count_runes s Wu). change (rune_count s, O) with (qv (NInt (rune_count s))).
+      apply levels_sound; auto. cbn. pose proof (rune_count_nonneg s). unfold min_int64, max_int64. lia. }
+    assert (Hpat : Forall (pat_holds rx s) (flat_map pl_pats pc)).
+    { rewrite compile_pats_simple in Epat by exact Hp. unfold pattern_check in Epat.
+      destruct (flat_map pl_pats pc) as [|p ps] eqn:E; [constructor|].
+      unfold pats_simple in Hp. rewrite E in Hp. cbn in Hp.
+      assert (ps = []) by (apply length_zero_iff_nil; lia). subst ps.
+      cbn in Epat. rewrite orb_false_r in Epat. constructor; [apply pat_ok_holds; exact Epat|constructor]. }
+    rewrite Forall_forall in Hlen, Hpat. apply Forall_forall. intros l Hl. split.
+    + apply Hlen. exact Hl.
+    + cbn. apply Forall_forall. intros p Hpin. apply Hpat. apply in_flat_map. exists l. auto.
+  - (* enum by name *)
+    destruct (existsb _ enums) eqn:E; [|discriminate]. apply existsb_exists in E.
+    destruct E as [e [Hin He]]. apply text_eqb_eq in He. cbn. exists e. auto.
+  - (* enum by value *)
+    destruct (existsb _ enums) eqn:E; [|discriminate]. apply existsb_exists in E.
+    destruct E as [e [Hin He]]. apply Z.eqb_eq in He. cbn. exists e. auto.
+  - (* bits *)
+    destruct (bits_ok bits names) eqn:E; [|discriminate]. cbn. intros n Hn Hne.
+    unfold bits_ok in E. rewrite forallb_forall in E. specialize (E n Hn).
+    destruct n; [congruence|]. apply mem_text_in. exact E.
+Qed.
+
+Lemma scalar_complete b pc s :
+  wf_chain pc -> integral_chain b pc = true -> pats_simple pc -> placed_chain pc = true -> wf_sval s ->
+  in_scalar rx b (map den_level pc) s -> check_scalar rx b (compile pc) s = Pass.
+Proof.
+  intros [Wr Wl] Hi Hp Hpl Ws H. unfold placed_chain in Hpl. apply andb_true_iff in Hpl.
+  destruct Hpl as [Plr Pll]. destruct b, s; cbn in H; try contradiction; cbn.
+  - destruct H as [Hz H].
+    assert (Ek : in_kind k z = true).
+    { unfold in_kind. apply andb_true_iff. split; apply Z.leb_le; lia. }
+    rewrite Ek. apply in_kind_wf in Ek. destruct Ek as [_ Wv]. rewrite compile_ranges.
+    apply (Forall_den_level (in_restr (kind_min k, O) (kind_max k, O) (z, O)) pl_range sl_range) in H; [|reflexivity].
+    rewrite <- (qv_kind k z) in H. eapply levels_complete; eauto.
+  - rewrite compile_ranges.
+    apply (Forall_den_level (in_restr (dec_min fd) (dec_max fd) (m, k)) pl_range sl_range) in H; [|reflexivity].
+    change (m, k) with (qv (NDec m k)) in H. eapply levels_complete; eauto; cbn; auto.
+  - destruct Ws as [Wu Wn]. rewrite Forall_map in H. apply Forall_and_inv in H. destruct H as [Hlen Hpat].
+    assert (Epat : pattern_check rx (c_pats (compile pc)) s = true).
+    { rewrite compile_pats_simple by exact Hp. unfold pattern_check.
+      destruct (flat_map pl_pats pc) as [|p ps] eqn:E; [reflexivity|].
+      cbn. apply orb_true_iff. left. apply pat_ok_holds.
+      assert (Hin : In p (flat_map pl_pats pc)) by (rewrite E; left; reflexivity).
+      apply in_flat_map in Hin. destruct Hin as [l [Hl Hpl]].
+      rewrite Forall_forall in Hpat. specialize (Hpat l Hl). cbn in Hpat.
+      rewrite Forall_forall in Hpat. auto. }
+    rewrite Epat. rewrite compile_lengths.
+    rewrite (char_count_runes s Wu) in Hlen. change (rune_count s, O) with (qv (NInt (rune_count s))) in Hlen.
+    eapply levels_complete; eauto. cbn. pose proof (rune_count_nonneg s). unfold min_int64, max_int64. lia.
+  - destruct H as [e [Hin He]].
+    replace (existsb (fun e0 => text_eqb s (fst e0)) enums) with true; [reflexivity|].
+    symmetry. apply existsb_exists. exists e. split; [exact Hin|]. apply text_eqb_eq. auto.
+  - destruct H as [e [Hin He]].
+    replace (existsb (fun e0 => z =? snd e0) enums) with true; [reflexivity|].
+    symmetry. apply existsb_exists. exists e. split; [exact Hin|]. apply Z.eqb_eq. auto.
+  - replace (bits_ok bits names) with true; [reflexivity|]. symmetry.
+    unfold bits_ok. apply forallb_forall. intros n Hn. destruct n as [|c n']; [reflexivity|].
+    apply mem_text_in. apply H; [exact Hn|discriminate].
+Qed.
+
+Lemma check_all_iff b ct l :
+  check_all rx b ct l = Pass <-> Forall (fun s => check_scalar rx b ct s = Pass) l.
+Proof.
+  induction l as [|s tl IH]; cbn; [split; auto|].
+  rewrite Forall_cons_iff, <- IH. destruct (check_scalar rx b ct s); split; try tauto; try discriminate.
+  all: intros [? ?]; discriminate.
+Qed.
+
+Theorem accept_sound : forall b il chain pc v,
+  parse_chain chain = Some pc -> integral_chain b pc = true -> pats_simple pc -> wf_value v ->
+  accept rx b il chain v = Accepted ->
+  in_effective_type rx b il (map den_level pc) v.
+Proof.
+  intros b il chain pc v Hparse Hi Hp Wv H. unfold accept in H. rewrite Hparse in H.
+  pose proof (parse_chain_wf _ _ Hparse) as Wc.
+  destruct (check_value rx b il (compile pc) v) eqn:E; try discriminate. clear H.
+  destruct il, v; cbn in *; try discriminate.
+  - apply check_all_iff in E. rewrite Forall_forall in *. intros s Hs.
+    apply scalar_sound; auto.
+  - apply scalar_sound; auto.
+Qed.
+
+Theorem accept_complete : forall b il chain pc v,
+  parse_chain chain = Some pc -> integral_chain b pc = true -> pats_simple pc ->
+  placed_chain pc = true -> wf_value v ->
+  in_effective_type rx b il (map den_level pc) v ->
+  accept rx b il chain v = Accepted.
+Proof.
+  intros b il chain pc v Hparse Hi Hp Hpl Wv H. unfold accept. rewrite Hparse.
+  pose proof (parse_chain_wf _ _ Hparse) as Wc.
+  assert (E : check_value rx b il (compile pc) v = Pass).
+  { destruct il, v; cbn in *; try contradiction.
+    - apply check_all_iff. rewrite Forall_forall in *. intros s Hs. apply scalar_complete; auto.
+    - apply scalar_complete; auto. }
+  rewrite E. reflexivity.
+Qed.
+
+(** the module loads exactly when every restriction expression parses *)
+Theorem load_iff_parses : forall b il chain v,
+  accept rx b il chain v = LoadErr <-> parse_chain chain = None.
+Proof.
+  intros. unfold accept. destruct (parse_chain chain).
+  - destruct (check_value rx b il (compile l) v); split; discriminate.
+  - split; reflexivity.
+Qed.
+End WithRegex2.
